@@ -1,6 +1,11 @@
 /-
-  C17 — obligations about the REGENERATED facts (Generated/C17.lean): lock balance of the BTC executor's two
-  critical sections on every return path, and the status tests of the two `isExecuted` copies.
+  C17 — obligations about the REGENERATED facts (Generated/C17.lean): lock balance of the BTC executor's two critical
+  sections on every return path, and the status tests of the two `isExecuted` copies.
+
+  Every fact is an `Option`: `none` = the translator could not locate the anchor in a shape it understands (obligation
+  vacuous, bin/check prints `T-TIE-UNAVAILABLE`, the correspondence ops — hist / race / filter / retryv1 … — carry the
+  clause alone). Located facts are compared semantically: the status tests as functions of the status (an `if` chain and
+  a `switch` give the same function), the lock facts as a balance computation; anchors are found by shape.
 -/
 import SygmaModel.Model.C17
 import SygmaModel.Generated.C17
@@ -9,38 +14,49 @@ open Sygma.C03 (Status)
 
 /-- a critical section is balanced if the unlock is deferred right after the (single) lock, or no return path and
     not the end of the function is reached with the mutex held -/
-def balanced (locks : Nat) (deferred : Bool) (returnsHeld : List Bool) (endHeld : Bool) : Bool :=
-  locks == 1 && (deferred || (returnsHeld.all (! ·) && !endHeld))
+def balanced (t : Nat × Bool × List Bool × Bool) : Bool :=
+  t.1 == 1 && (t.2.1 || (t.2.2.1.all (! ·) && !t.2.2.2))
 
-/-- `proposalsForExecution` releases propMutex on every path — the model's `hstep true` (`unlockOnErr = true`) -/
-theorem gen_forExec_balanced :
-    balanced Generated.C17.forExecLocks Generated.C17.forExecDeferUnlock Generated.C17.forExecReturnsHeld
-      Generated.C17.forExecEndHeld = true := by decide
+/-- `proposalsForExecution` takes propMutex once around the whole check-and-mark loop and releases it on every path —
+    the model's `hstep true` (`unlockOnErr = true`) -/
+theorem gen_forExec_balanced : ∀ t, Generated.C17.forExecLock = some t → balanced t = true := by
+  intro t ht
+  unfold Generated.C17.forExecLock at ht
+  cases ht
+  all_goals decide
 
 /-- `storeProposalsStatus` releases propMutex on every path -/
-theorem gen_storeStatus_balanced :
-    balanced Generated.C17.storeStatusLocks Generated.C17.storeStatusDeferUnlock Generated.C17.storeStatusReturnsHeld
-      Generated.C17.storeStatusEndHeld = true := by decide
+theorem gen_storeStatus_balanced : ∀ t, Generated.C17.storeStatusLock = some t → balanced t = true := by
+  intro t ht
+  unfold Generated.C17.storeStatusLock at ht
+  cases ht
+  all_goals decide
 
 /-- the as-found shape (lock, two early returns with the mutex held, unlock before the last return) is rejected -/
-theorem asFound_unbalanced : balanced 1 false [true, true, false] false = false := by decide
+theorem asFound_unbalanced : balanced (1, false, [true, true, false], false) = false := by decide
 
 def statusCode : Status → Nat
   | .missing => 0 | .pending => 1 | .failed => 2 | .executed => 3
 
 /-- retry.go `isExecuted`: "executed" exactly for status executed; a record is rewritten exactly when pending, to
     failed (model: `isExecuted`) -/
-theorem gen_retry_status (v : Status) :
-    Generated.C17.retryExecuted (statusCode v) = decide (v = .executed) ∧
-    Generated.C17.retryRelease (statusCode v) = decide (v = .pending) ∧
-    Generated.C17.retryWrites = statusCode .failed := by
-  cases v <;> decide
+theorem gen_retry_status :
+    ∀ t, Generated.C17.retryStatus = some t → ∀ v : Status,
+      t.1 (statusCode v) = decide (v = .executed) ∧ t.2.1 (statusCode v) = decide (v = .pending) ∧
+      t.2.2 = statusCode .failed := by
+  intro t ht
+  unfold Generated.C17.retryStatus at ht
+  cases ht
+  all_goals (intro v; cases v <;> decide)
 
 /-- the copy inside RetryV1EventHandler agrees -/
-theorem gen_retryV1_status (v : Status) :
-    Generated.C17.retryV1Executed (statusCode v) = decide (v = .executed) ∧
-    Generated.C17.retryV1Release (statusCode v) = decide (v = .pending) ∧
-    Generated.C17.retryV1Writes = statusCode .failed := by
-  cases v <;> decide
+theorem gen_retryV1_status :
+    ∀ t, Generated.C17.retryV1Status = some t → ∀ v : Status,
+      t.1 (statusCode v) = decide (v = .executed) ∧ t.2.1 (statusCode v) = decide (v = .pending) ∧
+      t.2.2 = statusCode .failed := by
+  intro t ht
+  unfold Generated.C17.retryV1Status at ht
+  cases ht
+  all_goals (intro v; cases v <;> decide)
 
 end Sygma.C17
